@@ -586,3 +586,113 @@ def valid_tree_ends(bnf, tree, name, kinds, i):
 
 def is_derivation_tree(bnf, tree, kinds, start=None):
     return len(kinds) in valid_tree_ends(bnf, tree, start or bnf.start, kinds, 0)
+
+
+# ---------------------------------------------------------------------------------------------------------------------------
+# Viable prefixes and next-terminal sets for any input kind (token list or scannerless text): the input must end at a token
+# boundary (possibly followed by ignorable text); everything after it lies in the continuation.
+
+def _first_terminals(bnf, prod, nul):
+    first = {r: set() for r in bnf.rules}
+    changed = True
+    while changed:
+        changed = False
+        for r in bnf.rules.values():
+            for a in r.alts:
+                if not all(s[0] != 'n' or s[1] in prod for s in a.syms):
+                    continue
+                for s in a.syms:
+                    if s[0] == 'none':
+                        continue
+                    if s[0] == 't':
+                        if s[1] not in first[r.name]:
+                            first[r.name].add(s[1])
+                            changed = True
+                        break
+                    add = first[s[1]] - first[r.name]
+                    if add:
+                        first[r.name] |= add
+                        changed = True
+                    if s[1] not in nul:
+                        break
+    return first
+
+
+class Frontier:
+    """viable(): is the input a (token-complete) viable prefix?  next_terms(): terminals that can legally come next (+ '$END')."""
+
+    def __init__(self, bnf, inp, start=None):
+        self.bnf, self.inp = bnf, inp
+        self.start = start or bnf.start
+        self.rec = Recognizer(bnf, inp)
+        self.prod = bnf.productive()
+        self.nul = bnf.nullable()
+        self.first = _first_terminals(bnf, self.prod, self.nul)
+        n = inp.n
+        self.N = {r: [None] * (n + 1) for r in bnf.rules}      # None = input cannot end inside/before r from i ; else set of next terminals
+        changed = True
+        while changed:
+            changed = False
+            for r in bnf.rules.values():
+                if r.name not in self.prod:
+                    continue
+                for i in range(n + 1):
+                    new = self._rule_frontier(r, i)
+                    old = self.N[r.name][i]
+                    if new is not None and (old is None or not new <= old):
+                        self.N[r.name][i] = (old or set()) | new
+                        changed = True
+
+    def _seq_first(self, syms):
+        out = set()
+        for s in syms:
+            if s[0] == 'none':
+                continue
+            if s[0] == 't':
+                out.add(s[1])
+                return out, False
+            out |= self.first[s[1]]
+            if s[1] not in self.nul:
+                return out, False
+        return out, True
+
+    def _rule_frontier(self, r, i):
+        res = None
+        for a in r.alts:
+            if not all(s[0] != 'n' or s[1] in self.prod for s in a.syms):
+                continue
+            cur = {i}
+            for k, s in enumerate(a.syms):
+                for p in cur:
+                    if self.inp.final_ok(p):
+                        # the input ends here: the rest of the alternative lies in the continuation
+                        f, _ = self._seq_first(a.syms[k:])
+                        res = (res or set()) | f
+                    if s[0] == 'n' and self.N[s[1]][p] is not None:
+                        res = (res or set()) | self.N[s[1]][p]
+                cur = set().union(*[self.rec.sym_ends(s, p) for p in cur]) if cur else set()
+                if not cur:
+                    break
+            else:
+                if any(self.inp.final_ok(e) for e in cur):
+                    res = res if res is not None else set()
+        return res
+
+    def viable(self):
+        return self.start in self.prod and self.N[self.start][0] is not None
+
+    def next_terms(self):
+        """Terminals that can follow the (token-complete) input; '$END' if it is a sentence. Terminals reachable only after the end of
+        a nullable tail are included through the enclosing alternatives."""
+        if not self.viable():
+            return set()
+        out = set(self._closure_next())
+        if self.rec.member(self.start):
+            out.add('$END')
+        return out
+
+    def _closure_next(self):
+        # N already holds, for every way the input can end inside the start symbol, the first terminals of what must follow inside
+        # that alternative; what may follow a *completed* nullable-suffix alternative is collected here by walking up: handled by
+        # _rule_frontier through `final_ok(p)` checks at every later symbol position of enclosing alternatives.
+        return self.N[self.start][0]
